@@ -36,7 +36,25 @@ func DefaultSolvers(timeoutSec int) []SolverSpec {
 
 // Solve races the solvers on the script; the first definite answer (sat/unsat) wins.
 // If needAgree > 1, that many distinct solvers must return the same definite answer.
+// Staged enables the two-stage strategy (off: measured slower on this workload).
+var Staged = false
+
 func Solve(script string, solvers []SolverSpec, timeout time.Duration, needAgree int) Result {
+	if Staged && needAgree <= 1 && len(solvers) > 1 && timeout > 3*time.Second {
+		// stage 1: the usually-fastest solver alone for a short time (saves two processes
+		// per query); stage 2: race everything.
+		r := solveRace(script, solvers[:1], 2*time.Second, 1)
+		if r.Status == "sat" || r.Status == "unsat" {
+			return r
+		}
+		r2 := solveRace(script, solvers, timeout, needAgree)
+		r2.Seconds += r.Seconds
+		return r2
+	}
+	return solveRace(script, solvers, timeout, needAgree)
+}
+
+func solveRace(script string, solvers []SolverSpec, timeout time.Duration, needAgree int) Result {
 	ctx, cancel := context.WithTimeout(context.Background(), timeout+2*time.Second)
 	defer cancel()
 	type one struct {
